@@ -17,27 +17,41 @@ from ..runner import shrink_ops
 
 ID = 'C17'
 RULE = ("a real Input (optionally persistent) or InputExp in a running circuit on the virtual-time loop; "
-        "validators are lookup-table scripts (keyed by the exact value incl. its type) that log their calls. "
+        "validators are lookup-table scripts (keyed by the exact value incl. its type) that log their calls; a "
+        "schema script raises one of six exception classes chosen per value by the scenario (ValueError, "
+        "TypeError, KeyError, ZeroDivisionError, AttributeError, an own Exception subclass); `allowed` is handed "
+        "over as list / tuple / set / frozenset / dict / dict keys view / generator and the caller mutates ITS "
+        "object afterwards (clear / add / remove between constructor and start and between events). "
         "Enumerated completely: 27 validator configurations (3 choices each for allowed/check/schema incl. "
         "absent, i.e. all 8 presence combinations several times) x all put sequences of length 4 (quick) / 5 "
         "(thorough) over {1, True, 1.0, 2, [1], (1,)}, and for the 8 presence combinations all sequences of "
         "length 6 over 5 of these values (thorough); the whole matrix configuration x initdef x restored "
         "value (Input) and configuration x initdef x expired (InputExp) over that domain plus UNDEF/absent/"
         "None; InputExp sequences of length 4 (quick: 8 configurations; thorough: all 27, and length 5 for "
-        "the 8) over 4 puts and waits of 4 s / 7 s with duration 10 s. Random: 20 000 (quick) / 150 000 "
-        "configurations (allowed subsets, check/schema tables with falsy/truthy results of many types, "
-        "raising schemas, UNDEF results, unhashable members of `allowed`) with sequences up to length 12 "
-        "over a 22-value domain. A case is distinct by its (input lines, trace) hash and non-trivial if at "
-        "least one validator is present and at least one event was sent")
+        "the 8) over 4 puts and waits of 4 s / 7 s with duration 10 s; 6 exception classes x allowed "
+        "present/absent x (raising initdef / expired / restored value, all put sequences of length 3 over 4 "
+        "values, InputExp sequences of length 3); 18 configurations with `allowed` x 7 collection kinds x 5 "
+        "caller-mutation patterns x Input / InputExp / restored start; all 6 orders x 8 type patterns x 3 "
+        "validator variants of three blocks built from ONE scratch set that is cleared and refilled for each "
+        "block. Random: 20 000 (quick) / 150 000 configurations (allowed subsets in a random collection kind "
+        "with random caller mutations in 40 % of them, check/schema tables with falsy/truthy results of many "
+        "types, schemas raising random classes, UNDEF results, unhashable members of `allowed`) with sequences "
+        "up to length 12 over a 22-value domain, and 600 / 6 000 random groups of 2-4 blocks sharing one "
+        "scratch set. A case is distinct by its (input lines, trace) hash and non-trivial if at least one "
+        "validator is present and at least one event was sent")
 ASSUMPTIONS = [
     "values are UNDEF, None, bool/int/float numbers, strings and flat tuples/lists of such atoms; no NaN, no "
     "objects with a user-defined __eq__/__hash__",
-    "check functions return a value and do not raise; a schema either returns a value or raises an Exception",
+    "check functions return a value and do not raise; a schema either returns a value or raises an instance of "
+    "(a subclass of) Exception -- BaseException subclasses (KeyboardInterrupt, SystemExit, CancelledError) are "
+    "not validation results and are out of scope",
     "a schema returning UNDEF (set_output refuses it: the handler fails) is modelled for put events only and "
     "generated rarely; it is not generated for initdef/expired/restored values",
     "InputExp: no stimulus falls on the very instant of the expiration (waits of 4 s and 7 s never add up to "
-    "the duration of 10 s); same-instant order is C04's subject",
+    "the duration of 10 s); same-instant order is C04's subject; blocks sharing a scratch set get no waits",
     "InputExp restores its saved state without validation (DESIGN.md section 6); not exercised here",
+    "whatever exception the code under test raises (constructor, start-up, event) is recorded as the outcome "
+    "of that step and compared / judged; it never terminates the check",
 ]
 EXHAUSTIVE = {'quick': False, 'thorough': True}
 
@@ -103,9 +117,10 @@ CHECK_OPTS = [
 SCHEMA_OPTS = [
     None,
     # converts into values that other validators would treat differently; raises by default
-    {'d': '!', 't': [['i1', 's61'], ['b1', 'i2'], ['i2', 'i1'], ['l[i1]', 't[i1]'], ['t[i1]', 'l[i1]']]},
+    {'d': '!K', 't': [['i1', 's61'], ['b1', 'i2'], ['i2', 'i1'], ['l[i1]', 't[i1]'], ['t[i1]', 'l[i1]'],
+                      ['f1/1', '!A']]},
     # identity on most values, 1.0 -> 1, raises for the list and for 2
-    {'d': 'n', 't': [['i1', 'i1'], ['b1', 'b1'], ['f1/1', 'i1'], ['t[i1]', 't[i1]'], ['l[i1]', '!'], ['i2', '!']]},
+    {'d': 'n', 't': [['i1', 'i1'], ['b1', 'b1'], ['f1/1', 'i1'], ['t[i1]', 't[i1]'], ['l[i1]', '!Z'], ['i2', '!C']]},
 ]
 CONFIGS = [{'allowed': a, 'check': c, 'schema': s}
            for a in ALLOWED_OPTS for c in CHECK_OPTS for s in SCHEMA_OPTS]
@@ -154,7 +169,7 @@ def _random_cfg(rng):
         def sres():
             r = rng.random()
             if r < 0.25:
-                return '!'
+                return rng.choice(RAISES)
             if r < 0.27:
                 return 'u'
             return rng.choice(BIG)
@@ -185,6 +200,55 @@ def scenarios(rng, tier):
         for initdef in ['u'] + D6:
             for expired in ['n'] + D6:
                 yield _exp(cfg, initdef, expired, [['put', 'i1'], ['wait', 11], ['put', 'b1']])
+    # --- a raising schema refuses whatever the class of the exception: constructor, restored value, puts
+    for x in RAISES:
+        for allowed in (None, ['i1', 'i2']):
+            cfg = {'allowed': allowed, 'check': None, 'schema': {'d': x, 't': [['i1', 's61'], ['b1', 'b1']]}}
+            yield _in(cfg, 'i2', None, [])
+            yield _exp(cfg, 'i2', 'i1', [])
+            yield _exp(cfg, 'i1', 'i2', [])
+            yield _exp(cfg, 'u', 'i2', [])
+            for seq in itertools.product(['i1', 'i2', 'b1', 'l[i1]'], repeat=3):
+                for restored in (None, 'i2'):
+                    yield _in(cfg, 'i1', restored, [['put', v] for v in seq])
+            for seq in itertools.product([['put', 'i1'], ['put', 'i2'], ['put', 'b1'], ['wait', 4]], repeat=3):
+                yield _exp(cfg, rng.choice(['u', 'i1']), 'i1', [list(o) for o in seq])
+    # --- `allowed` is a snapshot: every kind of collection, the caller mutates ITS object afterwards
+    for cfg in CONFIGS:
+        if cfg['allowed'] is None:
+            continue
+        a, b, n = cfg['allowed'][0], cfg['allowed'][1], 'i3'
+        patterns = [
+            ([['clear']], [['put', a], ['put', b], ['put', n]]),
+            ([], [['put', a], ['mut', 'clear', None], ['put', b], ['put', a], ['put', n]]),
+            ([], [['mut', 'add', n], ['put', n], ['mut', 'remove', a], ['put', a], ['put', b]]),
+            ([['add', n], ['remove', b]], [['put', n], ['put', b], ['put', a]]),
+            ([], [['put', b], ['mut', 'remove', b], ['put', b], ['mut', 'add', b], ['put', b],
+                  ['mut', 'clear', None], ['put', a]]),
+        ]
+        init = _valid_initdef(cfg, D6)
+        for akind in AKINDS:
+            for premut, ops in patterns:
+                if init is not None:
+                    yield {**_in(cfg, init, None, [list(o) for o in ops]), 'akind': akind, 'premut': premut}
+                    yield {**_exp(cfg, rng.choice(['u', init]), init, [list(o) for o in ops]),
+                           'akind': akind, 'premut': premut}
+                yield {**_in(cfg, 'u', a, [list(o) for o in ops]), 'akind': akind, 'premut': premut}
+    # --- one scratch set, cleared and refilled, for several blocks
+    lists = [['i1', 'i2'], ['s61', 's62'], ['i2', 'i3', 't[i1]']]
+    allvals = ['i1', 'i2', 'i3', 's61', 's62', 't[i1]', 'b1']
+    for perm in itertools.permutations(range(3)):
+        for kinds in itertools.product(['in', 'exp'], repeat=3):
+            for check, schema in ((None, None), (CHECK_OPTS[2], None),
+                                  (None, {'d': '!C', 't': [[v, v] for v in allvals if v != 'i2'] + [['i2', 'i1']]})):
+                blocks = []
+                for idx, k in zip(perm, kinds):
+                    cfg = {'allowed': lists[idx], 'check': check, 'schema': schema}
+                    init = _valid_initdef(cfg, lists[idx])
+                    ops = [['put', v] for v in allvals + allvals[::-1]]
+                    blocks.append({**(_in(cfg, init, None, ops) if k == 'in' else _exp(cfg, init, init, ops)),
+                                   'akind': 'set', 'duration': 30})
+                yield {'kind': 'multi', 'blocks': blocks}
     # --- put sequences (Input)
     seqcfgs = []
     for cfg in CONFIGS:
@@ -230,6 +294,30 @@ def scenarios(rng, tier):
             if good and r < 0.85:
                 return rng.choice(good)
             return rng.choice(safe) if safe else 'u'
+        extra = {}
+        mutating = False
+        if cfg['allowed'] is not None:
+            hashable = all(a[0] != 'l' for a in cfg['allowed'])
+            extra['akind'] = rng.choice(AKINDS if hashable else ['list', 'tuple', 'gen'])
+            mutating = rng.random() < 0.4
+
+            def mut():
+                r = rng.random()
+                if r < 0.25:
+                    return ['clear']
+                return ['add' if r < 0.65 else 'remove', rng.choice(HASHABLE_BIG)]
+            if mutating:
+                extra['premut'] = [mut() for _ in range(rng.choice([0, 0, 1, 2]))]
+
+        def with_muts(ops):
+            if not mutating:
+                return ops
+            res = []
+            for o in ops:
+                if rng.random() < 0.3:
+                    res.append(['mut'] + (mut() + [None])[:2])
+                res.append(o)
+            return res
         if rng.random() < 0.7:
             restored = None
             if rng.random() < 0.4:
@@ -237,7 +325,7 @@ def scenarios(rng, tier):
                 if restored == 'u':
                     restored = None
             ops = [['put', pick()] for _ in range(rng.randint(0, 12))]
-            yield _in(cfg, pick_init(True), restored, ops)
+            yield {**_in(cfg, pick_init(True), restored, with_muts(ops)), **extra}
         else:
             ops = []
             for _ in range(rng.randint(0, 12)):
@@ -247,16 +335,46 @@ def scenarios(rng, tier):
                 if not _init_safe(cfg, 'n'):
                     continue
                 expired = 'n'
-            yield _exp(cfg, pick_init(True), expired, ops)
+            yield {**_exp(cfg, pick_init(True), expired, with_muts(ops)), **extra}
+    # --- random groups of blocks built from one scratch set
+    for _ in range(600 if quick else 6000):
+        blocks = []
+        check = rng.choice([None, None, CHECK_OPTS[2]])
+        for _i in range(rng.randint(2, 4)):
+            lst = rng.sample(HASHABLE_BIG, rng.randint(1, 5))
+            cfg = {'allowed': lst, 'check': check, 'schema': None}
+            init = _valid_initdef(cfg, lst)
+            if init is None:
+                break
+            ops = [['put', rng.choice(HASHABLE_BIG + ['l[i1]'])] for _ in range(rng.randint(1, 8))]
+            blocks.append({**(_in(cfg, init, None, ops) if rng.random() < 0.6 else _exp(cfg, init, init, ops)),
+                           'akind': 'set', 'duration': 30})
+        if len(blocks) >= 2:
+            yield {'kind': 'multi', 'blocks': blocks}
 
 
 def shrink(scn):
+    if scn['kind'] == 'multi':
+        blocks = scn['blocks']
+        if len(blocks) > 1:
+            for i in range(len(blocks)):
+                yield {**scn, 'blocks': blocks[:i] + blocks[i + 1:]}
+        for i, b in enumerate(blocks):
+            for cand in shrink(b):
+                if cand.get('allowed') is not None:
+                    yield {**scn, 'blocks': blocks[:i] + [cand] + blocks[i + 1:]}
+        return
     yield from shrink_ops(scn)
+    if scn.get('premut'):
+        yield from shrink_ops(scn, 'premut')
     if scn.get('restored') is not None:
         yield {**scn, 'restored': None}
-    for key in ('check', 'schema', 'allowed'):
+    for key in ('check', 'schema'):
         if scn.get(key) is not None:
             yield {**scn, key: None}
+    if scn.get('allowed') is not None:
+        yield {**scn, 'allowed': None, 'premut': [], 'akind': 'list',
+               'ops': [o for o in scn['ops'] if o[0] != 'mut']}
     for key in ('check', 'schema'):
         spec = scn.get(key)
         if spec and spec['t']:
@@ -266,10 +384,19 @@ def shrink(scn):
 
 # ---------------------------------------------------------------- implementation runner
 
+class SchemaRefusal(Exception):
+    """an own exception type like the ones of validation libraries"""
+
+
+EXC_CLASSES = {'V': ValueError, 'T': TypeError, 'K': KeyError, 'Z': ZeroDivisionError,
+               'A': AttributeError, 'C': SchemaRefusal}
+RAISES = ['!' + k for k in EXC_CLASSES]
+AKINDS = ['list', 'tuple', 'set', 'frozenset', 'dict', 'dictkeys', 'gen']
+HASHING_AKINDS = ('set', 'frozenset', 'dict', 'dictkeys')
+
+
 def _mk_validators(scn, log):
     kw = {}
-    if scn['allowed'] is not None:
-        kw['allowed'] = [dec(a) for a in scn['allowed']]
     if scn['check'] is not None:
         ctab = dict((k, v) for k, v in reversed(scn['check']['t']))
         cdef = scn['check']['d']
@@ -285,8 +412,8 @@ def _mk_validators(scn, log):
         def schema(value):
             log.append('s:' + enc(value))
             r = stab.get(enc(value), sdef)
-            if r == '!':
-                raise KeyError(f'schema script raises for {value!r}')
+            if r[0] == '!':
+                raise EXC_CLASSES[r[1:] or 'K'](f'schema script raises for {value!r}')
             return dec(r)
         kw['schema'] = schema
     return kw
@@ -298,76 +425,170 @@ def _calls(log):
     return s
 
 
-def run_impl(scn):
-    lines, trace, steps, log = [], [], [], []
-    kind = scn['kind']
-    cfgstr = (f"{_allowed_str(scn['allowed'])} {_script_str('C', scn['check'])} "
-              f"{_script_str('S', scn['schema'])} {scn['initdef']}")
-    if kind == 'in':
-        lines.append(f'validate reset in {cfgstr}')
-    else:
-        lines.append(f"validate reset exp {cfgstr} {scn['expired']} {scn['duration']}")
-    restored = scn.get('restored')
-    sim = Sim()
-    ctor = {}
+class _Collection:
+    """the CALLER's collection object handed over as `allowed=` and what the caller does with it later"""
 
-    def build(circuit):
+    def __init__(self, encs, akind, shared=None):
+        self.akind = akind
+        vals = [dec(a) for a in encs]
+        if shared is not None:
+            self.obj = self.arg = shared          # one scratch set reused for several blocks
+        elif akind == 'set':
+            self.obj = self.arg = set(vals)
+        elif akind in ('dict', 'dictkeys'):
+            self.obj = dict.fromkeys(vals, 0)
+            self.arg = self.obj if akind == 'dict' else self.obj.keys()
+        else:
+            self.obj = vals                       # list, or the source of an immutable / one-shot argument
+            self.arg = {'list': lambda: vals, 'tuple': lambda: tuple(vals), 'frozenset': lambda: frozenset(vals),
+                        'gen': lambda: (x for x in vals)}[akind]()
+
+    def mutate(self, what, v):
+        obj = self.obj
+        if what == 'clear':
+            obj.clear()
+            return
+        value = dec(v)
+        if isinstance(obj, set):
+            (obj.add if what == 'add' else obj.discard)(value)
+        elif isinstance(obj, dict):
+            if what == 'add':
+                obj.setdefault(value, 0)
+            else:
+                obj.pop(value, None)
+        elif what == 'add':
+            if value not in obj:
+                obj.append(value)
+        else:
+            while value in obj:
+                obj.remove(value)
+
+
+def _mut_line(m):
+    return 'validate mutate ' + (m[0] if m[0] == 'clear' else f'{m[0]} {m[1]}')
+
+
+class _Block:
+    """one Input / InputExp of a scenario: protocol lines, canonical trace, raw steps for the oracle"""
+
+    def __init__(self, scn, name='inp'):
+        self.scn, self.name = scn, name
+        self.kind = scn['kind']
+        self.lines, self.trace, self.steps, self.log = [], [], [], []
+        self.blk = None
+        self.coll = None
+        self.dead = False
+        cfgstr = (f"{_allowed_str(scn['allowed'])} {_script_str('C', scn['check'])} "
+                  f"{_script_str('S', scn['schema'])} {scn['initdef']}")
+        if self.kind == 'in':
+            self.lines.append(f'validate reset in {cfgstr}')
+        else:
+            self.lines.append(f"validate reset exp {cfgstr} {scn['expired']} {scn['duration']}")
+
+    def construct(self, circuit, shared=None):
+        """never lets an exception of the code under test escape: it is the recorded outcome"""
+        scn, log = self.scn, self.log
         kw = _mk_validators(scn, log)
+        if scn['allowed'] is not None:
+            self.coll = _Collection(scn['allowed'], scn.get('akind', 'list'), shared)
+            kw['allowed'] = self.coll.arg
         if scn['initdef'] != 'u':
             kw['initdef'] = dec(scn['initdef'])
+        restored = scn.get('restored')
         try:
-            if kind == 'in':
+            if self.kind == 'in':
                 if restored is not None:
-                    circuit.set_persistent_data({KEY: dec(restored)})
-                blk = edzed.Input('inp', persistent=restored is not None, **kw)
+                    circuit.set_persistent_data({f"<Input '{self.name}'>": dec(restored)})
+                blk = edzed.Input(self.name, persistent=restored is not None, **kw)
             else:
-                blk = edzed.InputExp('inp', duration=scn['duration'], expired=dec(scn['expired']), **kw)
-        except (ValueError, TypeError) as err:
-            ctor['err'] = type(err).__name__
-            raise _CtorFailed() from None
-        if kind == 'in':
-            trace.append('ok' + _calls(log))
-            steps.append(('ctor', None, None, None))
+                blk = edzed.InputExp(self.name, duration=scn['duration'], expired=dec(scn['expired']), **kw)
+        except Exception as err:
+            self.trace.append('err ' + type(err).__name__ + _calls(log))
+            self.steps.append(('ctor', type(err).__name__, None, None))
+            self.dead = True
+            return None
+        self.blk = blk
+        if self.kind == 'in':
+            self.trace.append('ok' + _calls(log))
+            self.steps.append(('ctor', None, None, None))
         else:
             inp = blk.sdata.get('input', UNDEF)
-            trace.append(f"ok in={enc(blk.sdata['input']) if 'input' in blk.sdata else '-'} "
-                         f"exp={enc(blk._expired)}" + _calls(log))
-            steps.append(('ctor', None, inp, blk._expired))
-        lines.append(f"validate init {'-' if restored is None else restored}")
+            self.trace.append(f"ok in={enc(blk.sdata['input']) if 'input' in blk.sdata else '-'} "
+                              f"exp={enc(blk._expired)}" + _calls(log))
+            self.steps.append(('ctor', None, inp, blk._expired))
+        for m in scn.get('premut') or []:
+            self.mutate(m)
         return blk
 
-    def exp_obs(blk):
+    def mutate(self, m, apply=True):
+        """the caller changes ITS collection; `apply=False`: somebody else did it to the shared object"""
+        if self.dead:
+            return
+        if apply and self.coll is not None:
+            self.coll.mutate(m[0], m[1] if len(m) > 1 else None)
+        self.lines.append(_mut_line(m))
+        self.trace.append('ok')
+        self.steps.append(('mut', m[0], m[1] if len(m) > 1 else None))
+
+    def begin_init(self):
+        if not self.dead:
+            restored = self.scn.get('restored')
+            self.lines.append(f"validate init {'-' if restored is None else restored}")
+
+    def init_failed(self, sim):
+        if self.dead:
+            return
+        what = 'NotInitialized' if 'not initialized' in str(sim.final_error) else 'Abort'
+        self.trace.append('err ' + what + (_calls(self.log) if self.kind == 'in' else ''))
+        self.steps.append(('init', what, None))
+        self.dead = True
+
+    def exp_obs(self):
+        blk = self.blk
         val = blk.sdata.get('input', UNDEF) if blk.state == 'valid' else UNDEF
         return blk.state, blk.output, val
 
-    def exp_str(blk):
+    def exp_str(self):
+        blk = self.blk
         val = enc(blk.sdata['input']) if blk.state == 'valid' and 'input' in blk.sdata else '-'
         return f"st={blk.state} out={enc(blk.output)} val={val}"
 
-    async def drive(sim, blk):
+    async def drive(self, sim):
+        if self.dead:
+            return
+        blk, kind, log = self.blk, self.kind, self.log
+        lines, trace, steps = self.lines, self.trace, self.steps
         if kind == 'in':
             trace.append('ok ' + enc(blk.output) + _calls(log))
             steps.append(('init', 'ok', blk.output))
         else:
-            obs = exp_obs(blk)
-            trace.append('ok ' + exp_str(blk))
-            steps.append(('init', 'ok', obs))
+            trace.append('ok ' + self.exp_str())
+            steps.append(('init', 'ok', self.exp_obs()))
             del log[:]
         t_us = sim.loop.now_us
-        for op, arg in scn['ops']:
+        for o in self.scn['ops']:
+            op, arg = o[0], o[1]
+            if sim.aborted():
+                break
+            if op == 'mut':
+                self.mutate(o[1:])
+                continue
             if op == 'wait':
                 t_us += arg * 1_000_000
                 await vtime.advance_to(sim.loop, t_us)
                 lines.append(f'validate wait {arg}')
-                obs = exp_obs(blk)
-                trace.append(exp_str(blk))
-                steps.append(('wait', arg, obs))
+                trace.append(self.exp_str())
+                steps.append(('wait', arg, self.exp_obs()))
                 continue
             res, val = sim.send(blk, 'put', value=dec(arg))
             lines.append(f'validate put {arg}')
             aborted = sim.aborted()
+            calls = list(log)
             if res == 'ret' and not aborted:
-                head = 'ret ' + enc(val)
+                try:
+                    head = 'ret ' + enc(val)
+                except ValueError:
+                    head = 'ret ?' + type(val).__name__
             elif aborted:
                 head = 'err Abort'
             else:
@@ -376,53 +597,107 @@ def run_impl(scn):
                 obs = blk.output
                 trace.append(f'{head} out={enc(obs)}' + _calls(log))
             else:
-                obs = exp_obs(blk)
+                obs = self.exp_obs()
                 if aborted:
                     trace.append('err Abort')
                     del log[:]
                 else:
-                    trace.append(f'{head} {exp_str(blk)}' + _calls(log))
-            steps.append(('put', arg, (res, val if res == 'ret' else type(val).__name__), obs, aborted))
+                    trace.append(f'{head} {self.exp_str()}' + _calls(log))
+            steps.append(('put', arg, (res, val if res == 'ret' else type(val).__name__), obs, aborted, calls))
             if aborted:
                 break
 
+    def seal(self, unexpected=None):
+        """len(lines) == len(trace) whatever happened"""
+        while len(self.trace) < len(self.lines):
+            self.trace.append('err Unexpected' + (':' + unexpected if unexpected else ''))
+            self.steps.append(('unexpected', unexpected))
+        del self.lines[len(self.trace):]
+
+
+def run_impl(scn):
+    multi = scn['kind'] == 'multi'
+    subs = scn['blocks'] if multi else [scn]
+    blocks = [_Block(sub, f'inp{i}' if multi else 'inp') for i, sub in enumerate(subs)]
+    sim = Sim()
+
+    def build(circuit):
+        shared = set() if multi else None
+        for i, b in enumerate(blocks):
+            if multi:
+                # the application clears and refills its one scratch set for every block it creates
+                muts = [['clear']] + [['add', a] for a in b.scn['allowed']]
+                for m in muts:
+                    shared.clear() if m[0] == 'clear' else shared.add(dec(m[1]))
+                    for earlier in blocks[:i]:
+                        earlier.mutate(m, apply=False)
+            b.construct(circuit, shared)
+        for b in blocks:
+            b.begin_init()
+        if all(b.dead for b in blocks):
+            raise _CtorFailed()
+        return blocks
+
+    async def drive(sim, blocks):
+        for b in blocks:
+            await b.drive(sim)
+
+    unexpected = None
     try:
         sim.run(build, drive)
     except _CtorFailed:
-        trace.append('err ' + ctor['err'] + _calls(log))
-        steps.append(('ctor', ctor['err'], None, None))
+        pass
+    except Exception as err:        # whatever the code under test does is an outcome, not a crash of the check
+        unexpected = type(err).__name__
     if sim.init_error is not None:
-        what = 'NotInitialized' if 'not initialized' in str(sim.final_error) else 'Abort'
-        trace.append('err ' + what + (_calls(log) if kind == 'in' else ''))
-        steps.append(('init', what, None))
-    pres = ''.join(k[0].upper() + ('1' if scn[k] is not None else '0') for k in ('allowed', 'check', 'schema'))
-    nput = sum(1 for s in steps if s[0] == 'put')
-    nacc = sum(1 for s in steps if s[0] == 'put' and s[2] == ('ret', True))
-    tags = [f'kind={kind}', f'presence={pres}', f'len={min(len(scn["ops"]), 7)}' + ('+' if len(scn['ops']) > 7 else ''),
-            f'ctor={steps[0][1] or "ok"}']
-    if len(steps) > 1:
-        tags.append(f'init={steps[1][1]}')
-    if restored is not None:
-        tags.append('restored=' + ('accepted' if _accept(scn, restored)[0] else 'refused'))
+        for b in blocks:
+            b.init_failed(sim)
+    for b in blocks:
+        b.seal(unexpected)
+    first = subs[0]
+    pres = ''.join(k[0].upper() + ('1' if first[k] is not None else '0') for k in ('allowed', 'check', 'schema'))
+    allsteps = [st for b in blocks for st in b.steps]
+    nput = sum(1 for st in allsteps if st[0] == 'put')
+    nacc = sum(1 for st in allsteps if st[0] == 'put' and st[2] == ('ret', True))
+    nops = sum(len(sub['ops']) for sub in subs)
+    tags = [f"kind={scn['kind']}", f'presence={pres}', f'len={min(nops, 7)}' + ('+' if nops > 7 else ''),
+            f'ctor={blocks[0].steps[0][1] or "ok"}']
+    inits = [st for st in allsteps if st[0] == 'init']
+    if inits:
+        tags.append(f'init={inits[0][1]}')
+    if first.get('restored') is not None:
+        tags.append('restored=' + ('accepted' if _accept(first, first['restored'])[0] else 'refused'))
     if nput:
         tags.append('puts=' + ('all-accepted' if nacc == nput else 'all-refused' if nacc == 0 else 'mixed'))
-    if any(s[0] == 'put' and s[1][0] == 'l' for s in steps):
+    if any(st[0] == 'put' and st[1][0] == 'l' for st in allsteps):
         tags.append('unhashable-put')
-    return {'lines': lines, 'trace': trace, 'steps': steps, 'tags': tags,
-            'nontrivial': pres != 'A0C0S0' and len(steps) > 2,
-            'final_error': repr(sim.final_error)}
+    if any(st[0] == 'mut' for st in allsteps):
+        tags.append('caller-mutates-allowed')
+    for sub in subs:
+        if sub['allowed'] is not None:
+            tags.append('akind=' + sub.get('akind', 'list'))
+        if sub['schema'] is not None:
+            tags.extend(sorted({'schema-raises=' + EXC_CLASSES[r[1:] or 'K'].__name__
+                                for r in [sub['schema']['d']] + [x for _, x in sub['schema']['t']] if r[0] == '!'}))
+    return {'lines': [ln for b in blocks for ln in b.lines], 'trace': [t for b in blocks for t in b.trace],
+            'steps': [b.steps for b in blocks] if multi else blocks[0].steps, 'tags': sorted(set(tags)),
+            'nontrivial': pres != 'A0C0S0' and len(allsteps) > 2 * len(blocks),
+            'final_error': repr(sim.final_error), 'unexpected': unexpected}
 
 
 # ---------------------------------------------------------------- oracle (independent of the model)
 
-def _accept(cfg, v):
+def _accept(cfg, v, allowed='cfg'):
     """The property text: accepted iff among `allowed` (when given) and check(v) true (when given) and
-    schema(v) does not raise (when given); the output becomes schema(v) or v itself.
+    schema(v) does not raise -- an exception of whatever class -- (when given); the output becomes
+    schema(v) or v itself.
     -> (accepted, converted value (encoded), the calls of user code the documented order permits)"""
     value = dec(v)
     calls = []
-    if cfg['allowed'] is not None:
-        if not any(type(value) is not list and dec(a) == value for a in cfg['allowed']):
+    if allowed == 'cfg':
+        allowed = cfg['allowed']       # the contents of the collection when the block was created
+    if allowed is not None:
+        if not any(type(value) is not list and dec(a) == value for a in allowed):
             return False, None, calls
     if cfg['check'] is not None:
         calls.append('c:' + v)
@@ -440,10 +715,22 @@ def _accept(cfg, v):
             if k == v:
                 r = x
                 break
-        if r == '!':
+        if r[0] == '!':
             return False, None, calls
         return True, r, calls
     return True, v, calls
+
+
+def _schema_raises(cfg, v):
+    """the class the schema script raises for v (None: it returns), provided the script is reached"""
+    if cfg['schema'] is None:
+        return None
+    r = cfg['schema']['d']
+    for k, x in cfg['schema']['t']:
+        if k == v:
+            r = x
+            break
+    return EXC_CLASSES[r[1:] or 'K'].__name__ if r[0] == '!' else None
 
 
 def _same(a, b):
@@ -459,18 +746,64 @@ def _obs_key(obs):
 
 
 def oracle(scn, res):
+    if scn['kind'] != 'multi':
+        return _oracle_block(scn, res['steps'], res)
     out = []
-    steps = res['steps']
-    trace = res['trace']
+    for i, (sub, steps) in enumerate(zip(scn['blocks'], res['steps'])):
+        for v in _oracle_block(sub, steps, res):
+            v['what'] = f'block #{i} of {len(scn["blocks"])} built from one scratch set: ' + v['what']
+            out.append(v)
+    if any(v['clause'] == 'allowed_is_snapshot' for v in out):
+        # a failed start-up hits every block of the circuit; name the cause only
+        out = [v for v in out if v['clause'] == 'allowed_is_snapshot']
+    return out
+
+
+def _oracle_block(scn, steps, res):
+    out = []
     kind = scn['kind']
+    # the caller's collection object, as the caller sees it now (the block must not care)
+    caller = list(scn['allowed']) if scn['allowed'] is not None else None
+    mutated = [False]
 
     def bad(clause, what, **sig):
         out.append({'clause': clause, 'what': what, 'sig': sig})
         return out
 
-    def trace_calls(i):
-        t = trace[i]
-        return [c for c in t.split(' calls=')[1].split('|') if c] if ' calls=' in t else None
+    def do_mut(what, v):
+        if caller is None:
+            return
+        mutated[0] = True
+        if what == 'clear':
+            del caller[:]
+        elif what == 'add':
+            if not any(dec(a) == dec(v) for a in caller):
+                caller.append(v)
+        else:
+            caller[:] = [a for a in caller if dec(a) != dec(v)]
+
+    def put_clause(v, observed_ret, default='accept_iff'):
+        """name the broken clause of a put whose outcome is not the expected one"""
+        if mutated[0] and caller is not None and observed_ret is not None \
+                and _accept(scn, v, caller)[0] is observed_ret:
+            return 'allowed_is_snapshot'
+        ok_before_schema = _accept({**scn, 'schema': None}, v)[0]
+        if ok_before_schema and _schema_raises(scn, v):
+            return 'raising_schema_rejects'
+        return default
+
+    def init_clause(default):
+        inits = [v for v in (scn.get('restored'), scn['initdef'], scn.get('expired')) if v not in (None, 'u')]
+        if mutated[0] and any(_accept(scn, v)[0] != _accept(scn, v, caller)[0] for v in inits):
+            return 'allowed_is_snapshot'
+        for v in inits:
+            if _accept({**scn, 'schema': None}, v)[0] and _schema_raises(scn, v):
+                return 'raising_schema_rejects'
+        return default
+
+    if any(st[0] == 'unexpected' for st in steps):
+        return bad(init_clause('no_unexpected_exception'),
+                   f"the run ended with an unexpected {res.get('unexpected')} ({res.get('final_error')})")
 
     # ---- constructor
     unhashable_allowed = scn['allowed'] is not None and any(a[0] == 'l' for a in scn['allowed'])
@@ -490,8 +823,10 @@ def oracle(scn, res):
             clause = 'bad_expired_refused'
         else:
             clause = 'constructor'
-        return bad(clause, f"constructor with allowed={scn['allowed']} initdef={scn['initdef']} "
-                           f"expired={scn.get('expired')}: got {ctor[1] or 'no error'}, expected {want or 'no error'}")
+        return bad('constructor' if unhashable_allowed else init_clause(clause),
+                   f"constructor with allowed={scn['allowed']} ({scn.get('akind', 'list')}) "
+                   f"initdef={scn['initdef']} expired={scn.get('expired')}: got {ctor[1] or 'no error'}, "
+                   f"expected {want or 'no error'}")
     if want is not None:
         return out
     accepted_encs = set()      # every conversion accepted so far (output_always_valid)
@@ -499,6 +834,38 @@ def oracle(scn, res):
     def note(w):
         accepted_encs.add(w)
         return dec(w)
+
+    rest = list(steps[1:])
+    while rest and rest[0][0] == 'mut':         # the caller's mutations between constructor and start
+        do_mut(*rest.pop(0)[1:])
+    if not rest:
+        return bad('init', 'the block was constructed but never started')
+    init = rest.pop(0)
+
+    def check_put(i, st, expected_state_unchanged):
+        """common part of a put: -> (ok, w) or None after reporting"""
+        _, v, (rk, rv), obs, aborted, got_calls = st
+        ok, w, calls = _accept(scn, v)
+        if ok and w == 'u':
+            return 'skip'          # a schema producing UNDEF: outside the property
+        if aborted or rk != 'ret':
+            bad(put_clause(v, None), f'put #{i} of {v}: {rk} {rv}, simulation aborted={aborted}; expected the '
+                f'event to return {ok}' + (f' (the schema raises {_schema_raises(scn, v)})'
+                                           if _schema_raises(scn, v) else ''),
+                unhashable=v[0] == 'l')
+            return None
+        if rv is not ok:
+            bad(put_clause(v, rv), f'put #{i} of {v} returned {rv!r}, expected {ok} (allowed at construction: '
+                f"{scn['allowed']}, the caller's collection now: {caller})")
+            return None
+        if got_calls != calls:
+            snap = mutated[0] and _accept(scn, v, caller)[2] == got_calls
+            bad('allowed_is_snapshot' if snap else 'schema_last',
+                f'put #{i} of {v}: validators called {got_calls}, expected {calls}'
+                + (f" (allowed at construction: {scn['allowed']}, the caller's collection now: {caller})"
+                   if snap else ''))
+            return None
+        return ok, w
 
     if kind == 'in':
         # ---- start-up: a restored value goes through the same validation, then the initdef
@@ -510,32 +877,31 @@ def oracle(scn, res):
                 cur = note(w)
         if cur is UNDEF and scn['initdef'] != 'u':
             cur = note(_accept(scn, scn['initdef'])[1])
-        init = steps[1]
         if cur is UNDEF:
             if init[1] != 'NotInitialized':
-                return bad('restore_validated', f'no acceptable initial value, yet start-up gave {init[1:]}')
+                return bad(init_clause('restore_validated'),
+                           f'no acceptable initial value, yet start-up gave {init[1:]}')
             return out
         if init[1] != 'ok':
-            return bad('restore_validated' if restored is not None else 'init',
+            return bad(init_clause('restore_validated' if restored is not None else 'init'),
                        f"start-up with restored={restored} initdef={scn['initdef']} failed: {init[1]} "
                        f"({res.get('final_error')})", unhashable=bool(restored and restored[0] == 'l'))
         if not _same(init[2], cur) or enc(init[2]) not in accepted_encs:
-            return bad('restore_validated', f"initial output {init[2]!r}, expected {cur!r} "
-                                            f"(restored={restored}, initdef={scn['initdef']})")
+            return bad(init_clause('restore_validated'),
+                       f"initial output {init[2]!r}, expected {cur!r} "
+                       f"(restored={restored}, initdef={scn['initdef']})")
         prev = init[2]
-        for i, st in enumerate(steps[2:]):
-            _, v, (rk, rv), output, aborted = st
-            ok, w, calls = _accept(scn, v)
-            if ok and w == 'u':
-                return out          # a schema producing UNDEF: outside the property
-            if aborted or rk != 'ret':
-                return bad('accept_iff', f'put #{i} of {v}: {rk} {rv}, simulation aborted={aborted}; '
-                                         f'expected the event to return {ok}', unhashable=v[0] == 'l')
-            if rv is not ok:
-                return bad('accept_iff', f'put #{i} of {v} returned {rv!r}, expected {ok}')
-            got_calls = trace_calls(2 + i)
-            if got_calls != calls:
-                return bad('schema_last', f'put #{i} of {v}: validators called {got_calls}, expected {calls}')
+        for i, st in enumerate(rest):
+            if st[0] == 'mut':
+                do_mut(*st[1:])
+                continue
+            r = check_put(i, st, None)
+            if r is None:
+                return out
+            if r == 'skip':
+                return out
+            ok, w = r
+            v, output = st[1], st[3]
             if ok:
                 cur = note(w)
                 if not _same(output, cur):
@@ -564,9 +930,8 @@ def oracle(scn, res):
         val = note(_accept(scn, scn['initdef'])[1])
         if ctor[2] is UNDEF or enc(ctor[2]) != enc(val):
             return bad('bad_initdef_refused', f'initial value kept as {ctor[2]!r}, expected {val!r}')
-    init = steps[1]
     if init[1] != 'ok':
-        return bad('init', f'InputExp did not start: {init[1]}')
+        return bad(init_clause('init'), f'InputExp did not start: {init[1]} ({res.get("final_error")})')
     now, deadline = 0, (scn['duration'] if val is not UNDEF else None)
     prev = init[2]
 
@@ -586,7 +951,10 @@ def oracle(scn, res):
 
     if expect_obs(prev, 'after start-up'):
         return out
-    for i, st in enumerate(steps[2:]):
+    for i, st in enumerate(rest):
+        if st[0] == 'mut':
+            do_mut(*st[1:])
+            continue
         if st[0] == 'wait':
             now += st[1]
             if deadline is not None and deadline <= now:
@@ -595,18 +963,11 @@ def oracle(scn, res):
                 return out
             prev = st[2]
             continue
-        _, v, (rk, rv), obs, aborted = st
-        ok, w, calls = _accept(scn, v)
-        if ok and w == 'u':
+        r = check_put(i, st, None)
+        if r is None or r == 'skip':
             return out
-        if aborted or rk != 'ret':
-            return bad('accept_iff', f'put #{i} of {v}: {rk} {rv}, simulation aborted={aborted}; '
-                                     f'expected the event to return {ok}', unhashable=v[0] == 'l')
-        if rv is not ok:
-            return bad('accept_iff', f'put #{i} of {v} returned {rv!r}, expected {ok}')
-        got_calls = trace_calls(2 + i)
-        if got_calls != calls:
-            return bad('schema_last', f'put #{i} of {v}: validators called {got_calls}, expected {calls}')
+        ok, w = r
+        v, obs = st[1], st[3]
         if ok:
             val = note(w)
             deadline = now + scn['duration']
